@@ -9,7 +9,7 @@ ERRS = framing.ERRS
 def build():
     flags = framing.includes_of("libxcm/tp/tcp/xcm_tp_btcp.c")
     return common.build_harness("unit_btcp", ["unit_btcp.c"], extra_flags=flags, link_lib=True,
-                                libs=["ssl", "crypto", "cares"])
+                                libs=["ssl", "crypto", "cares"], ldflags=["-Wl,--wrap=setsockopt"])
 
 
 def rand_est(rng):
